@@ -893,10 +893,18 @@ pub fn run(ctx: &Ctx) -> Report {
     rep.sample(json!({"rep": {"sdd_vtree": "((0 2) 1)"}, "function": "0x96", "semiring": "Polynomial<RealSemiring>", "weights": "x_i -> (1 - x, x)"}));
     rep.assumptions.push("weights are drawn from alphabets on which f64 arithmetic is exact; polynomial results are compared coefficient-wise (the len field is a representation detail)".into());
     rep.assumptions.push("RationalSemiring can only be constructed as 0 or 1 from outside the crate".into());
+    // wide managers: labels that collide modulo 32 / 64 and straddle 2^5 .. 2^8 (wide.rs)
+    if !disabled("wide") {
+        let w = crate::props::wide::counts(ctx);
+        rep.merge(w);
+    }
     rep
 }
 
 pub fn replay(ctx: &Ctx, case: &Value) -> Report {
+    if let Some(r) = crate::props::wide::replay(ctx, case) {
+        return r;
+    }
     if case["kind"].as_str() == Some("weight_table") {
         return table_histories(ctx);
     }
